@@ -63,7 +63,7 @@ DECL2(void, proc_exit, (void*, U32))
 #define CALL(abi, name, args) ((abi) == 'p' ? wasi_snapshot_preview1__##name args : wasi_unstable__##name args)
 
 enum { R1 = 0x100, R2 = 0x110, IOV = 0x200, PATH1 = 0x400, WBUF = 0x1000, RBUF = 0x2000, STAT = 0x3000, DIRBUF = 0x4000, PATH2 = 0xC000, BIG = 0x10000 };
-#define MEMSIZE (4 * 65536)
+#define MEMSIZE (40 * 65536)
 static U8* before;
 static int callno;
 
@@ -126,7 +126,7 @@ int main(int argc, char** argv) {
     for (ai = 3; ai < argc && strcmp(argv[ai], "--"); ai++) wargv[nargs++] = argv[ai];
     for (ai++; ai < argc; ai++) wenv[nenv++] = argv[ai];
     wenv[nenv] = NULL;
-    mem = wasmMemoryAllocate(4, 4, false);
+    mem = wasmMemoryAllocate(40, 40, false);
     before = malloc(MEMSIZE);
     if (!wasiInit(nargs, wargv, wenv)) return 2;
     if (!wasiFileDescriptorAdd(-1, (char*)sandbox, NULL)) return 2;       /* descriptor 3: the pre-opened sandbox */
@@ -186,9 +186,9 @@ int main(int argc, char** argv) {
             U32 l1 = putpath(PATH1, tok[3]); memcpy(before, mem->data, MEMSIZE);
             err = CALL(abi, path_filestat_get, (NULL, (U32)strtoul(tok[2], 0, 10), 0, PATH1, l1, STAT));
         } else if (!strcmp(cmd, "argsizes")) err = CALL(abi, args_sizes_get, (NULL, R1, R2));
-        else if (!strcmp(cmd, "args")) { memset(mem->data + BIG, 0xEE, 0x20000); memcpy(before, mem->data, MEMSIZE); err = CALL(abi, args_get, (NULL, BIG, BIG + 0x1000)); }
+        else if (!strcmp(cmd, "args")) { memset(mem->data + BIG, 0xEE, 0x4000); memcpy(before, mem->data, MEMSIZE); err = CALL(abi, args_get, (NULL, BIG, BIG + 0x1000)); }
         else if (!strcmp(cmd, "envsizes")) err = CALL(abi, environ_sizes_get, (NULL, R1, R2));
-        else if (!strcmp(cmd, "env")) { memset(mem->data + BIG, 0xEE, 0x20000); memcpy(before, mem->data, MEMSIZE); err = CALL(abi, environ_get, (NULL, BIG, BIG + 0x1000)); }
+        else if (!strcmp(cmd, "env")) { memset(mem->data + BIG, 0xEE, 0x4000); memcpy(before, mem->data, MEMSIZE); err = CALL(abi, environ_get, (NULL, BIG, BIG + 0x1000)); }
         else if (!strcmp(cmd, "clock")) {
             struct timespec t0, t1; clockid_t cid = strtoul(tok[2], 0, 10) == 1 ? CLOCK_MONOTONIC : CLOCK_REALTIME;
             clock_gettime(cid, &t0);
@@ -196,7 +196,7 @@ int main(int argc, char** argv) {
             clock_gettime(cid, &t1);
             printf("{\"i\":%d,\"bracket\":[%ld,%ld,%ld,%ld]}\n", callno, (long)t0.tv_sec, (long)t0.tv_nsec, (long)t1.tv_sec, (long)t1.tv_nsec);
         } else if (!strcmp(cmd, "random")) {
-            U32 len = (U32)strtoul(tok[2], 0, 10), fill = (U32)strtoul(tok[3], 0, 10); memset(mem->data + BIG - 64, (int)fill, len + 128 > MEMSIZE - BIG + 64 ? MEMSIZE - BIG + 64 : len + 128);
+            U32 len = (U32)strtoul(tok[2], 0, 10), fill = (U32)strtoul(tok[3], 0, 10); memset(mem->data + BIG - 64, (int)fill, len + 128);
             memcpy(before, mem->data, MEMSIZE);
             err = CALL(abi, random_get, (NULL, BIG, len));
             { U32 a, run = 0, maxrun = 0, outside = 0;
